@@ -63,10 +63,21 @@ let tables_of (x : sexp) : tables =
     | _ -> failwith "oracle entry") (items x);
   t
 
+(* the positions where the tokens of a list start (groups: where they open and where they close), nested *)
+let rec starts_of (ts : ttree list) : Stdlib.String.t list =
+  let st sp = match sp with SCall -> "cs" | SPos (a, b, _, _) -> Printf.sprintf "%d.%d" (int_of_n a) (int_of_n b) in
+  List.concat_map (fun t -> match t with
+    | TTIdent (_, sp) | TTPunct (_, _, sp) | TTLit (_, _, sp) -> [st sp]
+    | TTGroup (_, sp, spo, spc, body) -> st sp :: st spo :: st spc :: starts_of body) ts
+
+(* the hypothesis of c13_error_located: a span reported by one of syn's parsers starts where a token of its own input starts *)
+let local_ok (ts : ttree list) (sp : span) : bool =
+  match sp with SCall -> true | SPos (a, b, _, _) -> List.mem (Printf.sprintf "%d.%d" (int_of_n a) (int_of_n b)) (starts_of ts)
+
 (* an oracle: a function of the remaining tokens of the current group, looked up by the
    (unique) source position of the first of them; nothing left is "unexpected end of input" *)
 let oracle (t : tables) (tbl : (Stdlib.String.t, 'a ores) Hashtbl.t) (what : Stdlib.String.t)
-    (taken : 'a -> nat) (ts : ttree list) : 'a ores =
+    (taken : 'a -> nat) ?(reported : 'a -> span list = fun _ -> []) (ts : ttree list) : 'a ores =
   match ts with
   | [] -> OErr OErrEof
   | first :: _ ->
@@ -76,7 +87,14 @@ let oracle (t : tables) (tbl : (Stdlib.String.t, 'a ores) Hashtbl.t) (what : Std
            (* the hypothesis of the theorems: a successful parse takes between one token and all of them *)
            let n = int_of_nat (taken r) in
            if n < 1 || n > List.length ts then t.bad <- (what ^ "@" ^ key ^ ": takes " ^ string_of_int n) :: t.bad;
+           List.iter (fun sp -> if not (local_ok ts sp) then
+                                  t.bad <- (what ^ "@" ^ key ^ ": reports the span " ^ span_to_string sp ^ ", which starts at no token of its input") :: t.bad)
+             (reported r);
            OOk r
+       | Some (OErr (OErrAt sp)) ->
+           if not (local_ok ts sp) then
+             t.bad <- (what ^ "@" ^ key ^ ": error at " ^ span_to_string sp ^ ", which starts at no token of its input") :: t.bad;
+           OErr (OErrAt sp)
        | Some e -> e
        | None -> t.bad <- (what ^ "@" ^ key ^ ": no table entry") :: t.bad; OErr OErrEof)
 
@@ -159,9 +177,10 @@ let do_frontend (f : Stdlib.String.t array) : Stdlib.String.t =
   let start = n_of_int (int_of_string f.(3)) in
   let ts = List.map ttree_of (items (parse_sexp f.(4))) in
   let t = tables_of (parse_sexp f.(5)) in
-  let pe = oracle t t.te "expr" (fun r -> r.eo_n) in
-  let pp = oracle t t.tp "path" (fun r -> r.po_n) in
-  let pc = oracle t t.tc "closure" (fun r -> r.co_n) in
+  let opt = function Some s -> [s] | None -> [] in
+  let pe = oracle t t.te "expr" (fun r -> r.eo_n) ~reported:(fun r -> r.eo_u.u_span :: opt r.eo_unx) in
+  let pp = oracle t t.tp "path" (fun r -> r.po_n) ~reported:(fun r -> opt r.po_unx) in
+  let pc = oracle t t.tc "closure" (fun r -> r.co_n) ~reported:(fun r -> r.co_inputs_span :: opt r.co_unx) in
   let res = front_end_from regex j pe pp pc start ts in
   let after = match counter_after regex j pe pp pc (fuel_for ts) ts with
     | Some c -> string_of_int (int_of_n c) | None -> "-" in
